@@ -113,7 +113,9 @@ def _definitions(body: list[ast.stmt]) -> tuple[dict[str, ast.expr], set[str]]:
     return {k: e for k, e in vals.items() if counts.get(k) == 1}, {k for k in counts}
 
 
-def analyse(info: LoopInfo) -> list[Finding]:
+def analyse(info: LoopInfo, pure=None) -> list[Finding]:
+    """`pure(function view, expression nodes) -> None | reason`: is a computation free of effects and of state that changes
+    (c15_memo.py); without it only calls of a few library constructors count as pure."""
     body = info.body
     single, bound = _definitions(body)
     plain_rebound: set[str] = set()
@@ -133,12 +135,17 @@ def analyse(info: LoopInfo) -> list[Finding]:
             for t in (n.targets if isinstance(n, ast.Assign) else [n.target]):
                 if isinstance(t, ast.Name):
                     bindings.setdefault(t.id, []).append(n.value)
+    iterated: list[tuple[set[str], ast.expr]] = [(names_of(n.target), n.iter) for n in _stmts(body) if isinstance(n, (ast.For, ast.AsyncFor, ast.comprehension))]
     changed = True
     while changed:
         changed = False
         for name, vals in bindings.items():
             if name not in derived and any(names_of(val) & derived for val in vals):
                 derived.add(name)
+                changed = True
+        for targets, it in iterated:  # the elements of an inner loop over something derived
+            if not targets <= derived and names_of(it) & derived:
+                derived |= targets
                 changed = True
     # accumulators: containers that exist before the loop and are grown inside it
     grows: dict[str, list[tuple[ast.AST, ast.expr | None, bool]]] = {}  # container -> (node, key, bulk)
@@ -167,6 +174,47 @@ def analyse(info: LoopInfo) -> list[Finding]:
                     grows.setdefault(recv, []).append((n, None, True))
     if not grows:
         return []
+
+    # memo tables: every entry is `C[k] = v` / `C.setdefault(k, v)` with v a pure function of k (and of values the loop does not
+    # change).  What `C[k]` yields is then the same whenever it was filled: a keyed read of it says nothing about earlier
+    # iterations, and the membership test that guards the filling selects nothing
+    loop_bound = set(bound) | set(info.elems)
+    for n in _stmts(body):
+        if isinstance(n, (ast.For, ast.AsyncFor, ast.comprehension)):
+            loop_bound |= names_of(n.target)
+    memo_tables: set[str] = set()
+    for container, events in grows.items():
+        ok = True
+        for n, key, bulk in events:
+            val = None
+            if isinstance(n, ast.Assign) and not bulk and key is not None and len(n.targets) == 1 and isinstance(n.targets[0], ast.Subscript):
+                val = n.value
+            elif isinstance(n, ast.Call) and n.func.attr == "setdefault" and len(n.args) == 2:  # type: ignore[union-attr]
+                val = n.args[1]
+            if val is None or key is None:
+                ok = False
+                break
+            free = {x.id for x in ast.walk(val) if isinstance(x, ast.Name) and isinstance(x.ctx, ast.Load)}
+            # only the key (its component names) and names the loop never rebinds
+            if (free & loop_bound) - names_of(key) or any(dotted(x) in grows for x in ast.walk(val) if isinstance(x, (ast.Name, ast.Attribute))):
+                ok = False
+                break
+            if any(isinstance(x, (ast.Yield, ast.YieldFrom, ast.Await, ast.NamedExpr)) for x in ast.walk(val)):
+                ok = False
+                break
+            if pure is not None:
+                if pure(info.fn, list(ast.walk(val))) is not None:
+                    ok = False
+                    break
+            else:
+                for c in ast.walk(val):
+                    if isinstance(c, ast.Call) and not (dotted(c.func) in ("re.compile", "tuple", "frozenset", "str", "len", "sorted")):
+                        ok = False
+                        break
+                if not ok:
+                    break
+        if ok:
+            memo_tables.add(container)
 
     def expand(e: ast.expr, depth: int = 0) -> list[ast.expr]:
         """The expression and the definitions of the boolean locals it tests."""
@@ -274,6 +322,8 @@ def analyse(info: LoopInfo) -> list[Finding]:
                     elif isinstance(c, ast.Call) and isinstance(c.func, ast.Attribute) and c.func.attr in ("get", "__contains__") and dotted(c.func.value) == container and c.args:
                         memberships.append(c.args[0])
                         covered |= {id(x) for x in ast.walk(c.func.value)}
+                    elif container in memo_tables and isinstance(c, ast.Subscript) and isinstance(c.ctx, ast.Load) and dotted(c.value) == container:
+                        covered |= {id(x) for x in ast.walk(c.value)}  # `C[k]` of a memo table: f(k), whenever it was stored
             if any(id(x) not in covered for x in mentions):
                 other = True
             key_texts = {norm(k) for k in memberships}
@@ -285,6 +335,8 @@ def analyse(info: LoopInfo) -> list[Finding]:
                     reported.add((id(owner), container))
                     out.append(Finding(info, test, container, f"`{norm(test, 100)}` is evaluated against `{container}`, which holds only what earlier iterations have put there: whether an element passes depends on what came before it"))
                 continue
+            if container in memo_tables:
+                continue  # every entry is a function of its key: neither looking one up nor filling one in depends on the order
             # membership only: slot initialisation of a mapping is no selection
             if isinstance(owner, ast.If) and not owner.orelse and all(_slot_init(st, container, key_texts) for st in owner.body):
                 continue
@@ -317,12 +369,75 @@ def analyse(info: LoopInfo) -> list[Finding]:
                 # the key) that are control dependent on the test count - its branches, what follows a continue / break / return
                 # taken in them, and what later tests of flags set in them guard
                 governed = _governed(body, owner)
-                kept_names = (derived - key_locals) | info.elems
+                # the key *is* its components (`link = (parent, child)`): what is done under the test with these values alone is
+                # a function of the key - skipping the repetition of an action that is determined by the key selects nothing
+                key_parts = set(key_locals)
+                for kn in sorted(key_locals):
+                    key_parts |= _components(body, owner, kn, bindings)
+                if True:
+                    # values computed from the key's parts alone (helpers expanded in place: `node = parent`, re-bound on several
+                    # paths) are determined by the key: the largest set of locals all of whose bindings read, of everything that
+                    # depends on the element, only key parts and each other
+                    cand = {nm for nm in bindings if nm not in info.elems and nm not in key_parts}
+                    shrunk = True
+                    while shrunk:
+                        shrunk = False
+                        for nm in sorted(cand):
+                            for val in bindings[nm]:
+                                used = {x.id for x in ast.walk(val) if isinstance(x, ast.Name) and isinstance(x.ctx, ast.Load)} & (derived | info.elems)
+                                if not used <= key_parts | cand:
+                                    cand.discard(nm)
+                                    shrunk = True
+                                    break
+                    key_parts |= cand & derived
+                kept_names = ((derived - key_locals) | info.elems) - (key_parts - key_locals)
                 real = [st for st in _stmts(body) if isinstance(st, ast.Name) and isinstance(st.ctx, ast.Load) and st.id in kept_names and id(st) not in inside and id(st) in governed]
                 if real:
                     reported.add((id(owner), container))
                     out.append(Finding(info, test, container, f"`{norm(test, 100)}` de-duplicates on the derived value `{', '.join(sorted(key_texts))}` while the element `{', '.join(sorted(info.elems))}` itself is kept: of two elements with the same key, the one that happens to come first wins"))
     return out
+
+
+def _components(body: list[ast.stmt], owner: ast.AST, name: str, bindings: dict[str, list[ast.expr]]) -> set[str]:
+    """Names whose values the local `name` consists of when `owner` tests it: `name` is bound once, to a tuple / a name, in the
+    block of `owner` and before it, and none of the parts is re-bound between that binding and the end of `owner`."""
+    vals = bindings.get(name, [])
+    if len(vals) != 1:
+        return set()
+    val = vals[0]
+    parts = val.elts if isinstance(val, ast.Tuple) else [val]
+    if not all(isinstance(x, (ast.Name, ast.Constant)) for x in parts):
+        return set()
+    names = {x.id for x in parts if isinstance(x, ast.Name)}
+
+    def block_of(block: list[ast.stmt]) -> list[ast.stmt] | None:
+        for st in block:
+            if st is owner:
+                return block
+            for fld in ("body", "orelse", "finalbody"):
+                sub = getattr(st, fld, None)
+                if isinstance(sub, list) and sub and isinstance(sub[0], ast.stmt):
+                    r = block_of(sub)
+                    if r is not None:
+                        return r
+            for h in getattr(st, "handlers", []) or []:
+                r = block_of(h.body)
+                if r is not None:
+                    return r
+        return None
+
+    blk = block_of(body)
+    if blk is None:
+        return set()
+    start = next((i for i, st in enumerate(blk) if isinstance(st, (ast.Assign, ast.AnnAssign)) and getattr(st, "value", None) is val), None)
+    end = next(i for i, st in enumerate(blk) if st is owner)
+    if start is None or start > end:
+        return set()
+    for st in blk[start + 1:end + 1]:
+        for x in ast.walk(st):
+            if isinstance(x, ast.Name) and isinstance(x.ctx, (ast.Store, ast.Del)) and x.id in names | {name}:
+                return set()
+    return names
 
 
 def _exits(block: list[ast.stmt]) -> bool:
